@@ -471,13 +471,15 @@ TARGETS = [
 
 def main(argv):
     verbose = '-v' in argv
+    as_json = '--json' in argv
+    pid = argv[argv.index('--property') + 1] if '--property' in argv else None
     import importlib
     t0 = time.time()
     total = dict(functions=0, paths=0, compared=0, skipped=0, mismatches=[])
     per = []
     for mod, qual, variants in TARGETS:
         importlib.import_module(mod)
-        if qual not in REG.contracts:
+        if qual not in REG.contracts or (pid is not None and pid not in REG.contracts[qual].serves):
             continue
         try:
             s = check_function(qual, variants, verbose)
@@ -490,14 +492,21 @@ def main(argv):
         for k in ('paths', 'compared', 'skipped'):
             total[k] += s[k]
         total['mismatches'] += [dict(m, qual=qual) for m in s['mismatches']]
-        print('crosscheck %-60s paths=%d compared=%d skipped=%d mismatches=%d%s' % (
+        (sys.stderr if as_json else sys.stdout).write('crosscheck %-60s paths=%d compared=%d skipped=%d mismatches=%d%s\n' % (
             qual, s['paths'], s['compared'], s['skipped'], len(s['mismatches']), (' ERROR ' + s['error']) if s.get('error') else ''))
     total['wall_s'] = round(time.time() - t0, 1)
     for s_ in per:
         s_['skipped_why'] = sorted(s_.get('skipped_why', ()))
     total['per_function'] = per
-    print(json.dumps(dict(summary={k: total[k] for k in ('functions', 'paths', 'compared', 'skipped', 'wall_s')},
-                          mismatches=total['mismatches']), indent=1)[:4000])
+    if as_json:
+        print(json.dumps(dict(functions=[s_['qual'] for s_ in per], paths=total['paths'], compared=total['compared'], skipped=total['skipped'],
+                              skipped_why=sorted(set(w for s_ in per for w in s_.get('skipped_why', []))), wall_s=total['wall_s'],
+                              mismatches=total['mismatches'],
+                              method='model of each symbolic path -> concrete arguments -> the real function under CPython; result, exception class and '
+                                     'post-state of mutable arguments compared with the interpreter\'s prediction (differential test of the encoding, not proof)')))
+    else:
+        print(json.dumps(dict(summary={k: total[k] for k in ('functions', 'paths', 'compared', 'skipped', 'wall_s')},
+                              mismatches=total['mismatches']), indent=1)[:4000])
     return 3 if total['mismatches'] else 0
 
 
